@@ -602,6 +602,34 @@ func (h *history) sampler() {
 
 // ------------------------------------------------------------------ history
 
+// startCluster starts the cluster. When a node cannot open (its port was
+// taken in the meantime) the library's clean-up closes servers that never
+// opened, which panics inside their Close: that is the harness tripping over
+// a failed start, not an observation about the target.
+func startCluster(dir string, nData int) (cl *cluster.Cluster, err error) {
+	defer func() {
+		if e := recover(); e != nil {
+			cl, err = nil, fmt.Errorf("start failed and the clean-up of the half-started cluster panicked: %v", e)
+		}
+	}()
+	return cluster.Start(dir, 3, nData, cluster.Options{})
+}
+
+func closeCluster(cl *cluster.Cluster) {
+	safely := func(f func()) {
+		defer func() { recover() }()
+		f()
+	}
+	for i := range cl.Datas {
+		i := i
+		safely(func() { cl.StopData(i) })
+	}
+	for i := range cl.Metas {
+		i := i
+		safely(func() { cl.StopMeta(i) })
+	}
+}
+
 func faultHistory(caseID string, seed int64) {
 	g := rand.New(rand.NewSource(seed))
 	nData := 1 + g.Intn(2)
@@ -613,12 +641,12 @@ func faultHistory(caseID string, seed int64) {
 	defer os.RemoveAll(dir)
 	r.Begin(caseID, map[string]interface{}{"case_seed": seed, "data_nodes": nData, "ops": nOps})
 	r.Eval(1)
-	cl, err := cluster.Start(dir, 3, nData, cluster.Options{})
+	cl, err := startCluster(dir, nData)
 	if err != nil {
 		r.Inconclusive(fmt.Sprintf("(d) %s: cluster did not start: %v", caseID, err))
 		return
 	}
-	defer cl.Close()
+	defer closeCluster(cl)
 	h := &history{id: caseID, seed: seed, g: g, cl: cl, down: map[int]bool{}, lastLeader: -1, maxIdx: make([]uint64, nData), seenMax: make([]uint64, nData), stopSampler: make(chan struct{})}
 	if h.waitLeader(60*time.Second) < 0 {
 		r.Inconclusive(fmt.Sprintf("(d) %s: no leader after start", caseID))
